@@ -445,14 +445,6 @@ func predTraces(c tracesCase, o *evid.Obs) error {
 		dataTables["tempo_traces"] = false
 		lim.DataHi = w.To - 1
 	}
-	if portions {
-		lim.DataLo = portionLowest(stmts, w.From) // == w.From outside the known-finding region
-		if !o.Witness {
-			lim.IdxLo = dayOf(lim.DataLo) - 1
-		} else {
-			lim.DataLo = w.From
-		}
-	}
 	// Tempo tag search: when tempo_v2 does not cover the window the tag index is read by date
 	// alone, by design (sqlIndexQuery.go) - it is an index table, a covering date range is
 	// what the property asks of it; the read is then confined by the bounds on tempo_traces,
@@ -461,7 +453,26 @@ func predTraces(c tracesCase, o *evid.Obs) error {
 	if lim.IndexDateOnly {
 		o.Tag("tag-index-bounded-by-date-only")
 	}
-	err = checkScans(st.db, stmts, lim, o)
+	if portions {
+		// every portion's statement against the start in force for it (== w.From unless the
+		// page was full before: portionAdjust has already rejected any other move)
+		ps := portionStmts(stmts)
+		isPortion := map[int]int64{}
+		for _, p := range ps {
+			isPortion[p.idx] = p.bound
+		}
+		for i := range stmts {
+			l := lim
+			if b, ok := isPortion[i]; ok {
+				l.DataLo, l.IdxLo = b, dayOf(b)-1
+			}
+			if err = checkScans(st.db, stmts[i:i+1], l, o); err != nil {
+				break
+			}
+		}
+	} else {
+		err = checkScans(st.db, stmts, lim, o)
+	}
 	dataTables["tempo_traces"] = saved
 	if err != nil {
 		return fmt.Errorf("%s: %v", ctx, err)
